@@ -44,7 +44,7 @@ h_ptrheap_add(void)
 	__CPROVER_assert(rc == 0 || (H->nelems == n && H_l_ea->buf == buf0 && H_l_ea->size == n * sizeof(void *) &&
 	    H_l_ea->alloc == H_l_alloc), "failed add leaves the heap as it was");
 	VCOVER(rc == 0 && use_rc && n == HP_MAXN - 1 && HP_E(H->elems, 0) == ptr);
-	VCOVER(rc == 0 && !use_rc && n >= 3 && HP_E(H->elems, n) == ptr && H_l_ea->buf != buf0);
+	VCOVER(rc == 0 && n >= 3 && HP_E(H->elems, n) == ptr && H_l_ea->buf != buf0);	/* stayed at the bottom, list reallocated */
 	VCOVER(rc == -1 && n > 0 && use_rc);
 	VCOVER(rc == 0 && n == 0);
 	/* release everything with the normal calls: the memory-leak obligation shows nothing else is live */
